@@ -65,6 +65,25 @@ Theorem C20_i32_i64_digits :
 Proof. split; [exact fmt_i32_digits_proof|exact fmt_i64_digits_proof]. Qed.
 Print Assumptions C20_i32_i64_digits.
 
+Theorem C20_16bit_digits :
+  (forall v, 0 <= v < 65536 -> f_out (fmt_u16 v) = dec v) /\
+  (forall v, -32768 <= v < 32768 -> f_out (fmt_i16 v) = dec_signed v).
+Proof. exact fmt_16_digits_proof. Qed.
+Print Assumptions C20_16bit_digits.
+
+(* pointers: text = "0x" + hexadecimal numeral.  PARTIAL: proved (exhaustively) for values below 2^16 only;
+   missing: the nibble induction for all 64-bit values (larger values are compared with Python's hex() on samples) *)
+Definition C20_ptr_digits_statement : Prop := forall p, 0 <= p < 18446744073709551616 -> f_out (fmt_ptr p) = 48 :: 120 :: hexnum p.
+Theorem C20_ptr_digits_partial : forall p, 0 <= p < 65536 -> f_out (fmt_ptr p) = 48 :: 120 :: hexnum p.
+Proof. exact fmt_ptr_digits_partial. Qed.
+Print Assumptions C20_ptr_digits_partial.
+
+(* (d) termination of the only counted loop in the layout code: the 5 slots of the exponent buffer are enough
+   and its text is the numeral, for every exponent the source admits (ASSERT(exponent < 1e4)) *)
+Theorem C20_exponent_digits : forall e, 1 <= e < 10000 -> exp_loop 5 e [] = dec e.
+Proof. exact exp_loop_digits_proof. Qed.
+Print Assumptions C20_exponent_digits.
+
 (* (a') double / float: whatever the digit generator delivers within its documented range
         (<= 17 resp. 9 digits, decimal point position of a finite double / float), the text plus
         StringBuilder's terminator fits the reservation *)
